@@ -15,6 +15,9 @@ ops:   ["cb"] ["eb"]            outer.callback(value) / outer.errback(failure)
        ["pause", t] ["unpause", t]   t = "o" (outer) or an inner index; unpause is ignored unless the
                                 harness itself has an unmatched pause of that Deferred
 An inner operation that names an inner Deferred that does not exist is ignored.
+K may also be "succeed" / "fail": the Deferred is made by defer.succeed(value) / defer.fail(failure),
+i.e. it "has already had .callback(result) called" (docstring) and every further result must raise.
+       ["debug", 0|1]           switch Deferred debugging off / on in the middle of the history
 Optional case key "debug": run the history with Deferred debugging on
 (defer.setDebugging(True)); it is documented to add tracebacks to AlreadyCalledError
 and nothing else, so every statement of the property must hold unchanged.
@@ -32,14 +35,16 @@ from lib.core import hyp_run, enumerate_run
 META = dict(
     property="C03",
     level="exploration",
-    technique="complete enumeration of all histories of length <= 6 (thorough <= 7, <= 8 for inner Deferreds without canceller) over 7 operations, and of length <= 5 (thorough <= 6) over 10 operations that also build chains three deep, x canceller kinds, an 8-operation alphabet with pause/unpause of the outer Deferred, a small scope with Deferred debugging switched on, plus Hypothesis histories to length 20 (pause/unpause of any Deferred, debugging on for a quarter of them), against a sequential model of the fire-once / cancel protocol; compared after every operation, with a two-fire epilogue per Deferred",
+    technique="complete enumeration of all histories of length <= 6 (thorough <= 7, <= 8 for inner Deferreds without canceller) over 7 operations, and of length <= 5 (thorough <= 6) over 10 operations that also build chains three deep, x canceller kinds (and Deferreds made by succeed()/fail()), an alphabet that switches Deferred debugging on and off mid-history, an 8-operation alphabet with pause/unpause of the outer Deferred, a small scope with Deferred debugging switched on, plus Hypothesis histories to length 20 (pause/unpause of any Deferred, debugging on for a quarter of them), against a sequential model of the fire-once / cancel protocol; compared after every operation, with a two-fire epilogue per Deferred",
     level_text="All histories over {callback, errback, cancel, add callback returning a fresh inner Deferred, fire latest inner ok/fail, cancel latest inner} of the stated length are run for the listed (outer canceller, inner canceller) pairs; a second, 10-operation alphabet adds {add a callback returning a fresh Deferred to the latest inner Deferred, fire / cancel the second-latest Deferred}, so that cancel() has to be forwarded through an intermediate Deferred that has itself fired and is waiting (histories that contain an ignored inner operation are left out: they equal a shorter history; the comparison after every operation covers all prefixes). Hypothesis adds histories up to length 20 that address any inner Deferred and mix canceller kinds per inner Deferred. Exhaustive only inside that scope.",
     level_note="Trusted base: the model in this file (class Model), written from the docstrings of Deferred.__init__ (canceller), callback, errback and cancel. A canceller that raises is expected to propagate out of cancel() and leave the Deferred unfired (documented behaviour). Callbacks do not call back into Deferreds except through cancellers.",
     design_ref="§5 C03",
-    rule="case = (outer canceller, inner canceller, ops). Non-trivial = the history contains a cancel() of some Deferred followed later by a callback/errback on that same Deferred; distinct by the whole case. Classes: late result swallowed, AlreadyCalledError, cancel forwarded to the inner Deferred, canceller fired / did nothing / raised, cancel on a fired Deferred that waits on nothing, cancel forwarded through a fired intermediate Deferred (chain three deep), cancel of a fired Deferred that was handed its awaited result while user-paused, histories run with Deferred debugging on.",
+    rule="case = (outer canceller, inner canceller, ops). Non-trivial = the history contains a cancel() of some Deferred followed later by a callback/errback on that same Deferred; distinct by the whole case. Classes: late result swallowed, AlreadyCalledError, cancel forwarded to the inner Deferred, canceller fired / did nothing / raised, cancel on a fired Deferred that waits on nothing, cancel forwarded through a fired intermediate Deferred (chain three deep), cancel of a fired Deferred that was handed its awaited result while user-paused, histories run with Deferred debugging on or toggled mid-history, Deferreds made by succeed()/fail() that get a further result.",
 )
 
 KINDS = ["none", "noop", "cb", "eb", "raise"]
+MADE = ["succeed", "fail"]          # pre-fired constructors; no canceller
+ALLKINDS = KINDS + MADE
 NO = ("no",)
 V_NONE = ("v", None)
 CANCELLED = ("f", "CancelledError")
@@ -80,7 +85,11 @@ class Model:
         self.ev = set()
 
     def new(self, kind):
-        d = _MD(len(self.ds), kind)
+        d = _MD(len(self.ds), "none" if kind in MADE else kind)
+        if kind in MADE:
+            d.called = True
+            d.result = ("v", "s%d" % d.i) if kind == "succeed" else ("f", "f%d" % d.i)
+            self.prefired = getattr(self, "prefired", set()) | {d.i}
         self.ds.append(d)
         return d
 
@@ -92,6 +101,8 @@ class Model:
                 self.ev.add("late result swallowed")
                 return "ignored"
             self.ev.add("AlreadyCalledError")
+            if d.i in getattr(self, "prefired", ()):
+                self.ev.add("further result on a Deferred made by succeed()/fail()")
             return "already"
         d.called = True
         d.result = res
@@ -211,6 +222,10 @@ def _execute(case):
         calls.append(0)
         if kind == "none":
             d = Deferred()
+        elif kind == "succeed":
+            d = defer.succeed("s%d" % i)
+        elif kind == "fail":
+            d = defer.fail(TagError("f%d" % i))
         else:
             def canceller(dd):
                 calls[i] += 1
@@ -338,6 +353,9 @@ def _execute(case):
                 if got != m:
                     return ("cancel-outcome:expected-%s-got-%s" % (m, got),
                             "op %d %r: inner cancel() %s, model says %s" % (n, op, got, m)), None
+        elif k == "debug":
+            defer.setDebugging(bool(op[1]))
+            model.ev.add("Deferred debugging toggled mid-history")
         elif k in ("pause", "unpause"):
             t = op[1]
             if t == "o":
@@ -394,8 +412,21 @@ def _key(case):
     return "%s|%s|%s|" % (case["outer"], case["inner"], "dbg" if case.get("debug") else "") + ";".join(",".join(str(x) for x in op) for op in case["ops"])
 
 
+_UNRAISABLE = []
+
+
+def _quiet_unraisable(u):
+    # e.g. DebugInfo.__del__ failing at garbage collection on a broken tree: not what this property
+    # is about, and the interpreter's default report on stderr would bury the VIOLATION line
+    _UNRAISABLE.append(repr(u.exc_value)[:200])
+
+
 def run_case(ctx, case):
-    if case["outer"] not in KINDS or case["inner"] not in KINDS:
+    import sys
+    sys.unraisablehook = _quiet_unraisable
+    if _UNRAISABLE:
+        ctx.note("exceptions ignored in __del__/GC were silenced, first: " + _UNRAISABLE[0])
+    if case["outer"] not in ALLKINDS or case["inner"] not in ALLKINDS:
         return
     from twisted.internet import defer
     debug = bool(case.get("debug"))
@@ -426,7 +457,8 @@ ALPHABET = [["cb"], ["eb"], ["cancel"], ["add"], ["fi", -1, "ok"], ["fi", -1, "f
 ALPHABET10 = ALPHABET + [["addto", -1], ["fi", -2, "ok"], ["ci", -2]]
 ALPHABET8P = [["cb"], ["cancel"], ["add"], ["addto", -1], ["fi", -1, "ok"], ["fi", -2, "ok"],
               ["pause", "o"], ["unpause", "o"]]
-ALPHABETS = {"a7": ALPHABET, "a10": ALPHABET10, "a8p": ALPHABET8P}
+ALPHABET9D = ALPHABET + [["debug", 1], ["debug", 0]]
+ALPHABETS = {"a7": ALPHABET, "a10": ALPHABET10, "a8p": ALPHABET8P, "a9d": ALPHABET9D}
 
 
 def _enum_shard(ctx, arg):
@@ -439,6 +471,7 @@ def _enum_shard(ctx, arg):
     need = [(-op[1] if op[0] in ("fi", "ci", "addto") else 0) for op in A]
     makes = [op[0] in ("add", "addto") for op in A]
     pz = [(1 if op[0] == "pause" else -1 if op[0] == "unpause" else 0) for op in A]
+    dbg = [(op[1] if op[0] == "debug" else None) for op in A]
 
     def cases():
         idx = [0] * (length - 1)
@@ -447,7 +480,13 @@ def _enum_shard(ctx, arg):
             have = 0
             own = 0
             ok = True
+            state = 1 if debug else 0
             for x in seq:
+                if dbg[x] is not None:
+                    if dbg[x] == state:     # switching to the state it is in: equal to a shorter history
+                        ok = False
+                        break
+                    state = dbg[x]
                 if need[x] > have:
                     ok = False
                     break
@@ -471,12 +510,13 @@ def _enum_shard(ctx, arg):
                 p -= 1
             if p < 0:
                 return
-    if need[first] == 0 and pz[first] >= 0:
+    if need[first] == 0 and pz[first] >= 0 and dbg[first] != (1 if debug else 0):
         enumerate_run(ctx, cases(), run_case)
 
 
 HYP_OPS = ([["cb"]] * 4 + [["eb"]] * 3 + [["cancel"]] * 6 + [["add"]] * 3
            + [["add", k] for k in KINDS]
+           + [["debug", 1]] * 2 + [["debug", 0]] + [["add", k] for k in MADE] + [["addto", -1, k] for k in MADE]
            + [["pause", "o"]] * 2 + [["unpause", "o"]] * 2
            + [[v, t] for v in ("pause", "unpause") for t in (-1, -2, 0)]
            + [["addto", -1]] * 3 + [["addto", k] for k in (-2, 0)] + [["addto", -1, k] for k in KINDS]
@@ -487,7 +527,7 @@ HYP_OPS = ([["cb"]] * 4 + [["eb"]] * 3 + [["cancel"]] * 6 + [["add"]] * 3
 def histories():
     return st.builds(
         dict,
-        outer=st.sampled_from(["none", "none", "noop", "cb", "eb", "raise"]),
+        outer=st.sampled_from(["none", "none", "noop", "cb", "eb", "raise", "succeed", "fail"]),
         inner=st.sampled_from(KINDS),
         debug=st.sampled_from([False, False, False, True]),
         ops=st.lists(st.sampled_from(HYP_OPS), min_size=1, max_size=20))
@@ -497,11 +537,14 @@ def _hyp_shard(ctx, i):
     hyp_run(ctx, histories(), run_case, ctx.pick(2000, 15000), label="hist%d" % i)
 
 
-QUICK_PAIRS = [("a7", o, "none", 6 if o in ("none", "noop") else 5) for o in KINDS] + [
+QUICK_PAIRS = [("a7", o, "none", 6 if o == "none" else 5) for o in KINDS] + [
     ("a7", "none", "noop", 5), ("a7", "none", "cb", 5), ("a7", "none", "raise", 5), ("a7", "noop", "eb", 5),
-    ("a10", "none", "none", 6), ("a10", "cb", "noop", 5), ("a10", "noop", "raise", 5), ("a10", "none", "cb", 5),
-    ("a8p", "none", "none", 6), ("a8p", "none", "noop", 6), ("a8p", "cb", "raise", 5),
-    ("a7+debug", "none", "none", 5), ("a7+debug", "noop", "cb", 5), ("a10+debug", "none", "noop", 4)]
+    ("a10", "none", "none", 5), ("a10", "cb", "noop", 5), ("a10", "noop", "raise", 5), ("a10", "none", "cb", 5),
+    ("a8p", "none", "none", 6), ("a8p", "none", "noop", 5), ("a8p", "cb", "raise", 5),
+    ("a7+debug", "none", "none", 5), ("a7+debug", "noop", "cb", 5), ("a10+debug", "none", "noop", 4),
+    ("a9d", "none", "none", 5), ("a9d+debug", "noop", "none", 4),
+    ("a7+debug", "succeed", "none", 4), ("a7+debug", "none", "succeed", 4), ("a7", "fail", "fail", 4),
+    ("a9d", "succeed", "fail", 4)]
 
 
 def run(ctx):
@@ -510,7 +553,10 @@ def run(ctx):
             + [("a10", o, i, 6) for o in KINDS for i in KINDS] \
             + [("a8p", o, i, 7) for o in KINDS for i in KINDS] \
             + [("a7+debug", o, i, 6) for o in KINDS for i in KINDS] \
-            + [("a10+debug", o, "noop", 5) for o in KINDS]
+            + [("a10+debug", o, "noop", 5) for o in KINDS] \
+            + [("a9d", o, i, 6) for o in ALLKINDS for i in ("none", "cb", "succeed")] \
+            + [("a9d+debug", o, i, 6) for o in ALLKINDS for i in ("none", "fail")] \
+            + [("a7+debug", o, i, 5) for o in ALLKINDS for i in MADE]
     else:
         pairs = QUICK_PAIRS
     args = [(name, o, i, length, first) for (name, o, i, length) in pairs
